@@ -27,6 +27,7 @@ import (
 	"strconv"
 	"strings"
 	"sync"
+	"sync/atomic"
 	"testing"
 	"testing/synctest"
 	"time"
@@ -277,6 +278,77 @@ func ErrClass(err error) string {
 	return "other"
 }
 
+// watch is shared between the bubble root of the running scenario and a
+// watchdog goroutine outside the bubble.  A goroutine of the code under test
+// that blocks on a sync.Mutex for ever is not "durably blocked" for synctest:
+// synctest.Wait() and the fake clock then never make progress.  The watchdog
+// notices the missing heartbeat, confirms from two goroutine dumps that the
+// same goroutine(s) of the bubble sit in a mutex acquisition, records a
+// "Hang" line for the scenario (an observation about the code under test) and
+// abandons the bubble.
+type watch struct {
+	beat   atomic.Int64
+	bubble atomic.Value // string
+	mu     sync.Mutex
+	last   Line
+}
+
+var curWatch atomic.Pointer[watch]
+
+func heartbeat() {
+	if w := curWatch.Load(); w != nil {
+		w.beat.Add(1)
+	}
+}
+
+var (
+	goidRe = regexp.MustCompile(`^goroutine (\d+) \[`)
+	siteRe = regexp.MustCompile(`bisquitt/client\.\(\*(\w+)\)\.(\w+)`)
+)
+
+// mutexBlocked returns the IDs of the goroutines of the given bubble that are
+// waiting for a mutex and the innermost client method of the first of them.
+func mutexBlocked(bubble string) (ids string, where string) {
+	buf := make([]byte, 4<<20)
+	all := string(buf[:runtime.Stack(buf, true)])
+	for _, g := range strings.Split(all, "\n\n") {
+		h := g
+		if i := strings.IndexByte(h, '\n'); i >= 0 {
+			h = h[:i]
+		}
+		m := bubbleRe.FindStringSubmatch(h)
+		if m == nil || m[1] != bubble {
+			continue
+		}
+		if !(strings.Contains(h, "Mutex.Lock") || strings.Contains(h, "semacquire") || strings.Contains(h, "RWMutex")) {
+			continue
+		}
+		if id := goidRe.FindStringSubmatch(h); id != nil {
+			ids += id[1] + ","
+		}
+		if where == "" {
+			if fn := siteRe.FindStringSubmatch(g); fn != nil {
+				where = fn[1] + "." + fn[2]
+			} else {
+				where = "unknown"
+			}
+		}
+	}
+	return
+}
+
+func normEv(ev *TraceEv) {
+	if ev.P.T == "" {
+		ev.P = Pk{Sn: absmap.Sn{T: "NONE"}, Tl: []string{}}
+	}
+	if ev.Tl == nil {
+		ev.Tl = []string{}
+	}
+	if ev.Cfg.Predef == nil {
+		ev.Cfg.Predef = []PredefEntry{}
+	}
+}
+
 func TestDrive(t *testing.T) {
 	in := os.Getenv("VERIF_SCHED")
 	out := os.Getenv("VERIF_TRACE")
@@ -312,14 +384,23 @@ func TestDrive(t *testing.T) {
 		}
 		sc := sc
 		n := n
+		wd := &watch{}
+		curWatch.Store(wd)
+		var emitMu sync.Mutex
 		emit := func(l Line) {
 			b, err := json.Marshal(l)
 			if err != nil {
 				panic(err)
 			}
+			emitMu.Lock()
 			w.Write(b)
 			w.WriteByte('\n')
 			w.Flush()
+			emitMu.Unlock()
+			wd.mu.Lock()
+			wd.last = l
+			wd.mu.Unlock()
+			wd.beat.Add(1)
 		}
 		progress := func(i int) {
 			if prog != "" {
@@ -341,9 +422,51 @@ func TestDrive(t *testing.T) {
 			})
 			fin <- false
 		}()
+		stop := make(chan struct{})
+		go func() { // watchdog, outside the bubble: real time
+			lastBeat, lastChange := wd.beat.Load(), time.Now()
+			prevIDs := ""
+			for {
+				select {
+				case <-stop:
+					return
+				case <-time.After(300 * time.Millisecond):
+				}
+				if b := wd.beat.Load(); b != lastBeat {
+					lastBeat, lastChange, prevIDs = b, time.Now(), ""
+					continue
+				}
+				if time.Since(lastChange) < 1500*time.Millisecond {
+					continue
+				}
+				bubble, _ := wd.bubble.Load().(string)
+				ids, where := mutexBlocked(bubble)
+				if ids == "" || ids != prevIDs {
+					prevIDs = ids
+					if time.Since(lastChange) < 180*time.Second {
+						continue
+					}
+					where = "" // no progress and no explanation: harness problem
+				}
+				if wd.beat.Load() != lastBeat {
+					continue
+				}
+				wd.mu.Lock()
+				l := wd.last
+				wd.mu.Unlock()
+				l.I++
+				l.Ev = TraceEv{T: "Hang", H: where}
+				normEv(&l.Ev)
+				l.Out, l.Rets, l.Cbs = []Pk{}, []Ret{}, []Cb{}
+				emit(l)
+				fin <- true
+				return
+			}
+		}()
 		if <-fin {
 			abandoned++
 		}
+		close(stop)
 	}
 	if prog != "" {
 		os.WriteFile(prog, []byte("DONE"), 0o644)
@@ -367,6 +490,12 @@ type collector struct {
 }
 
 func runScenario(sc Scenario, emit func(Line), progress func(int), park func()) {
+	if w := curWatch.Load(); w != nil {
+		buf := make([]byte, 256)
+		if m := bubbleRe.FindStringSubmatch(string(buf[:runtime.Stack(buf, false)])); m != nil {
+			w.bubble.Store(m[1])
+		}
+	}
 	col := &collector{}
 	conn := memnet.NewDatagram("sn", func(b []byte) {
 		col.mu.Lock()
@@ -482,6 +611,7 @@ func runScenario(sc Scenario, emit func(Line), progress func(int), park func()) 
 		for i := 0; i < n; i++ {
 			time.Sleep(tick)
 			synctest.Wait()
+			heartbeat()
 			quiet++
 			l := snapshot(TraceEv{T: "Adv", N: quiet})
 			if len(l.Out) > 0 || len(l.Rets) > 0 || len(l.Cbs) > 0 || mkobs(l) != last {
@@ -560,6 +690,7 @@ func runScenario(sc Scenario, emit func(Line), progress func(int), park func()) 
 
 	for i, e := range sc.Events {
 		progress(i)
+		heartbeat()
 		switch e.E {
 		case "api":
 			ev := TraceEv{T: "Api", Call: e.Call, Api: e.Api, Topic: e.Topic, Qos: e.Qos, Tid: e.Tid,
@@ -623,6 +754,9 @@ func runScenario(sc Scenario, emit func(Line), progress func(int), park func()) 
 			conn.Inject(d)
 			for k := 0; k < 400000 && c.VerifState().String() != e.Until; k++ {
 				runtime.Gosched()
+				if k%1000 == 0 {
+					heartbeat()
+				}
 			}
 			reached := c.VerifState().String() == e.Until
 			gt.mu.Lock()
@@ -679,6 +813,7 @@ func runScenario(sc Scenario, emit func(Line), progress func(int), park func()) 
 	for i := 0; i < horizon; i++ {
 		time.Sleep(tick)
 		synctest.Wait()
+		heartbeat()
 	}
 	closed := false
 	select {
